@@ -1,6 +1,7 @@
 CONSTANT NOps = 3
 CONSTANT SharedScratch = FALSE
 CONSTANT AllThirds = TRUE
+CONSTANT NtcFirst3 = {1, 2, 3, 4, 5, 6, 7, 8, 9}
 INIT Init
 NEXT Next
 INVARIANT OwnContent
